@@ -91,6 +91,76 @@ pub fn bases() -> Vec<Base> {
         // (the first 40 fields: headers, counts and the first part offsets; 1501 offsets x 18 values would dominate the run)
         out.push(Base { big: true, ty, shp: enc.bytes, shx, shp_fields: enc.fields.into_iter().take(40).collect(), shx_fields });
     }
+    // honest records of 8192..65536 points in very many small parts
+    for (ty, nparts, per) in [(Ty::PolylineZ, 2000usize, 5usize), (Ty::Polygon, 1500, 7), (Ty::Multipatch, 2100, 4)] {
+        let mut k = 0usize;
+        let parts = (0..nparts).map(|i| {
+            let mut pts: Vec<P4> = (0..per).map(|j| { let q = (k + j) as f64; [q * 0.5, 3.0 - q * 0.25, 100.0 + q, 1000.0 + q * 0.125] }).collect();
+            k += per;
+            if ty.family() == Family::Polygon {
+                let f = pts[0];
+                *pts.last_mut().unwrap() = f;
+            }
+            MPart { kind: if ty == Ty::Multipatch { (i % 2) as u8 } else { 0 }, pts }
+        }).collect();
+        let shape = MShape { ty, parts };
+        let bbox = codec::true_bbox(&shape);
+        let f = MFile { ty, header_box: [0.0; 8], records: vec![MRecord { number: 1, body: MBody::Shape { shape, bbox, with_m: true } }], trailing: vec![] };
+        let enc = codec::encode(&f);
+        let (shx, shx_fields) = codec::encode_shx(&f, &enc, &[0]);
+        out.push(Base { big: true, ty, shp: enc.bytes, shx, shp_fields: enc.fields.into_iter().take(24).collect(), shx_fields });
+    }
+    // records that combine two unusual but legal features: a stored box that is inverted, not a number or the
+    // "empty envelope", and a part structure with no part at all / an empty first part / empty parts only / an
+    // open ring behind an empty part
+    for ty in [Ty::Polyline, Ty::PolygonM, Ty::PolylineZ, Ty::PolygonZ, Ty::Multipatch] {
+        for structure in 0..5usize {
+            let mk = |n: usize, start: usize| -> Vec<P4> { (0..n).map(|i| dflt(start + i)).collect() };
+            let lens: Vec<usize> = match structure {
+                0 => vec![],
+                1 => vec![0, 3],
+                2 => vec![0, 0],
+                3 => vec![3, 0],
+                _ => vec![0, 4, 0, 3],
+            };
+            let mut k = 0;
+            let parts: Vec<MPart> = lens.iter().enumerate().map(|(pi, l)| {
+                let pts = mk(*l, k);
+                k += l;
+                MPart { kind: if ty == Ty::Multipatch { [2u8, 3, 4, 5, 0, 1][(pi + structure) % 6] } else { 0 }, pts }
+            }).collect();
+            let shape = MShape { ty, parts };
+            let t = codec::true_bbox(&shape);
+            for bv in 0..5usize {
+                let mut bbox = t;
+                match bv {
+                    0 => {}
+                    1 => bbox.swap(0, 2),
+                    2 => bbox.swap(1, 3),
+                    3 => {
+                        bbox[0] = f64::NAN;
+                        bbox[3] = f64::NAN;
+                    }
+                    _ => {
+                        bbox[0] = f64::MAX;
+                        bbox[1] = f64::MAX;
+                        bbox[2] = -f64::MAX;
+                        bbox[3] = -f64::MAX;
+                    }
+                }
+                if bv == 1 && bbox[0] <= bbox[2] {
+                    bbox[0] = bbox[2] + 1.0;
+                }
+                if bv == 2 && bbox[1] <= bbox[3] {
+                    bbox[1] = bbox[3] + 1.0;
+                }
+                let f = MFile { ty, header_box: [0.0; 8], records: vec![MRecord { number: 1, body: MBody::Shape { shape: shape.clone(), bbox, with_m: structure % 2 == 0 } }, MRecord { number: 2, body: MBody::Null }], trailing: vec![] };
+                let enc = codec::encode(&f);
+                let (shx, shx_fields) = codec::encode_shx(&f, &enc, &[0, 1]);
+                out.push(Base { big: true, ty, shp: enc.bytes, shx, shp_fields: enc.fields, shx_fields });
+            }
+        }
+    }
     // large valid files: one long part per record, sizes beyond 8 Ki and 64 Ki points
     for ty in [Ty::MultipointZ, Ty::PolylineZ, Ty::PolygonM, Ty::Multipatch, Ty::Polyline] {
         for n in if std::env::var("VCHECK_E3_HUGE").is_ok() { vec![8193usize, 65537] } else { vec![8193usize] } {
